@@ -587,6 +587,25 @@ func runC16(r *core.Run) {
 
 func c16Events(r *core.Run, a *Party, img *images.Image) {
 	q := worldp.Req{Image: img, SNP: true, LaunchVmsas: 2, SnapshotDir: "snap", OutDir: "e", Candidate: "snapshot", ClSpec: 5, Timestamp: a.A.Now}
+	if r.Bool("long-lived-signer") {
+		// a long-lived signing Context that has just signed ANOTHER firmware: the events emitted
+		// for this one are about this one
+		small := images.Small()
+		prior := small[(indexOf(small, img)+1+r.Intn(len(small)-1, "prior-image"))%len(small)]
+		if prior == img {
+			prior = small[(indexOf(small, img)+1)%len(small)]
+		}
+		qp := q
+		qp.Image, qp.Candidate, qp.ClSpec = prior, "snapshot-prior", 4
+		ec := worldp.BuildContext(a.VCS, qp)
+		qp.Reuse = ec
+		if _, err := worldp.Endorse(r, a.A, a.VCS, qp, ""); err != nil {
+			r.HarnessErr = "snapshot endorse of the prior image failed: " + err.Error()
+			return
+		}
+		q.Reuse = ec
+		r.Probe("events-from-long-lived-signer")
+	}
 	if _, err := worldp.Endorse(r, a.A, a.VCS, q, ""); err != nil {
 		r.HarnessErr = "snapshot endorse failed: " + err.Error()
 		return
